@@ -168,6 +168,8 @@ structure Behav where
   age : Option Nat := none          -- recent chains: current slot - slot of the requester's finalized block
   extra : List Char := []           -- more connected peers (harness/c19/multipeer.go)
   mainFail : Bool := false          -- the announcing peer fails the getLastBlock request of the peer selection
+  failAt : Option Nat := none       -- getBlocksFromId for a start block of that height or above fails (error reply)
+  muteAt : Option Nat := none       -- ... is never answered (request time-out): a failed request as well
 
 def parseBehav (s : Scn) (w : List String) : Behav :=
   { cap := kv w "cap", stop := kv w "stop", badStatic := kv w "badstatic", badExec := kv w "badexec",
@@ -178,6 +180,7 @@ def parseBehav (s : Scn) (w : List String) : Behav :=
     finPeak := (kv w "finpeak").getD 0,
     target := kv w "target", tmhp := (kv w "tmhp").getD 0, age := kv w "age",
     extra := ((kvs w "extra").getD "").toList, mainFail := kvs w "main" == some "e",
+    failAt := kv w "fail", muteAt := kv w "mute",
     force := match kvs w "force" with
       | some "fast" => some .fast
       | some "block" => some .block
@@ -199,6 +202,11 @@ def mkPeer (s : Scn) (b : Behav) : Peer Id :=
       | some ans => fun _ => some ans
       | none => hp.common,
     segment := fun i =>
+      let refused : Bool := match heightOf c i with
+        | some h => (match b.failAt with | some a => decide (a ≤ h) | none => false)
+                    || (match b.muteAt with | some a => decide (a ≤ h) | none => false)
+        | none => false
+      if refused then none else
       match hp.segment i with
       | none => none
       | some l =>
@@ -274,6 +282,25 @@ def step (s : Scn) (w : List String) : Scn × String :=
       | some ids => hcbStr s (handleHighestCommon okLen s.resp (some ids))
       | none => "bad-op")
   | ["hcbnil"] => (s, hcbStr s (handleHighestCommon okLen s.resp none))
+  | "hreq" :: kind :: r =>
+    -- the request an honest synchroniser with `n` validators builds from the requester chain cut at `tip`
+    (s, match kv r "n", kv r "tip" with
+      | some n, some tip =>
+        if n < 1 ∨ tip > s.lenQ then "bad-op" else
+        let q := s.chainQ.take (tip + 1)
+        let heights? : Option (List Nat) := match kind with
+          | "fast" => some (getLastHeights tip (2 * n))
+          | "block" => (match kv r "fin" with
+            | some fin => if fin > tip then none else
+                some (getHeightWithGap (getCommonBlockStartSearchHeight tip n) fin n 10)
+            | none => none)
+          | _ => none
+        (match heights? with
+          | some hs =>
+            let ids := idsAt q hs
+            "req " ++ toString ids.length ++ " " ++ hcbStr s (handleHighestCommon okLen s.resp (some ids))
+          | none => "bad-op")
+      | _, _ => "bad-op")
   | ["hcbraw", hex] =>
     (s, match Hex.decode? hex with
       | some data => hcbStr s (handleHighestCommon okLen s.resp (decodeHcb data))
